@@ -364,7 +364,12 @@ def connPhaseExit (s : St) (e : Exc) : St :=
 caller (or is absorbed by the next connect attempt). -/
 def throwAt (cfg : Cfg) (s : St) (e : Exc) : St :=
   match s.pc with
-  | .poolWait => connPhaseExit { s with poolQ := s.poolQ.filter (· ≠ .R) } e
+  | .poolWait =>
+    -- `finally: keyed_waiters.pop(fut)`; a waiter that was woken (future done, not cancelled) but
+    -- leaves by an exception hands the wake-up to the next waiter (`_release_waiter()`)
+    let s : St := { s with poolQ := s.poolQ.filter (· ≠ Who.R) }
+    let s := if s.rWoken then releaseWaiter cfg { s with rWoken := false } else s
+    connPhaseExit s e
   | .dnsOwner | .dnsWaiter => connPhaseExit (releasePlaceholder cfg { s with dnsWaitR := false }) e
   | .connecting =>
     let r := sockExit { s with closedSocks := s.closedSocks + 1 } e
